@@ -77,7 +77,7 @@ theorem below_lt (r : Rng) {n : Nat} (h : 0 < n) : (r.below n).1 < n := by
   unfold below next
   split <;> simp [Nat.mod_lt _ h]
 
-theorem swapIB_perm {α} (a : Array α) (i j : Nat) : (a.swapIfInBounds i j).Perm a := by
+theorem swapIfInBounds_perm {α} (a : Array α) (i j : Nat) : (a.swapIfInBounds i j).Perm a := by
   unfold Array.swapIfInBounds
   split
   · split
@@ -85,17 +85,17 @@ theorem swapIB_perm {α} (a : Array α) (i j : Nat) : (a.swapIfInBounds i j).Per
     · exact Array.Perm.refl _
   · exact Array.Perm.refl _
 
-theorem shuffleAux_perm {α} (i : Nat) (a : Array α) (r : Rng) :
+theorem shuffleAux_isPerm {α} (i : Nat) (a : Array α) (r : Rng) :
     (shuffleAux i a r).1.Perm a := by
   induction i generalizing a r with
   | zero => simp [shuffleAux]
   | succ i ih =>
     simp only [shuffleAux]
-    exact (ih _ _).trans (swapIB_perm _ _ _)
+    exact (ih _ _).trans (swapIfInBounds_perm _ _ _)
 
 /-- `shuffle` loses and duplicates nobody, whatever the script -/
 theorem shuffle_perm {α} (l : List α) (r : Rng) : (shuffle l r).1.Perm l := by
-  have := shuffleAux_perm (l.toArray.size - 1) l.toArray r
+  have := shuffleAux_isPerm (l.toArray.size - 1) l.toArray r
   simpa [shuffle, Array.perm_iff_toList_perm] using this
 
 theorem shuffle_length {α} (l : List α) (r : Rng) : (shuffle l r).1.length = l.length :=
